@@ -13,7 +13,9 @@
 (*         came back (src, kind; val = text | empty | ws | none: a blank   *)
 (*         text is a value) and whose file name `<a>_file` returned; for   *)
 (*         a = render the classes whose template / script / style texts    *)
-(*         the rendered document contains (rtpl, rjs, rcss: RCode values). *)
+(*         the rendered document contains (rtpl, rjs, rcss: RCode values); *)
+(*         miss = the asset files ([c, p]: `<p>_file` of class c) that do  *)
+(*         not exist at the moment of the access (fault-then-retry runs).  *)
 (* Every event must be explained by the MediaInherit action of the same    *)
 (* name, and the observation must satisfy what the specification           *)
 (* determines (named clauses).  An observation MediaInherit rejects is     *)
@@ -58,6 +60,8 @@ Obs(e, t) == CASE t = "js" -> e.js [] t = "all" -> e.all [] t = "print" -> e.pri
 \* the clauses of the specification the observation of event e violates (short codes, so
 \* that a verdict line never wraps): F files = exactly the union, O each file once, R order,
 \* X unexpected css media type, S the abstract machine itself is off, E exception,
+\* (admitted while a file in the MRO of the class is missing: MediaInherit!MayRaise), Q an answer although the
+\* file of the nearest definition is missing (MediaInherit!MustRaise),
 \* C creation outcome, M Python's MRO differs from Mro(c), N nearest-class rule, L <pair>_file form,
 \* T / J / Y the rendered document carries another template / script / style than the nearest definition's
 RenderFailing(e) ==
@@ -71,6 +75,8 @@ RenderFailing(e) ==
   ELSE (IF Range(e.rtpl) = Shipped(a["template"]) THEN {} ELSE {"T.render"}) \cup
        (IF Range(e.rjs) = Shipped(a["js"]) THEN {} ELSE {"J.render"}) \cup
        (IF Range(e.rcss) = Shipped(a["css"]) THEN {} ELSE {"Y.render"})
+\* the asset files that do not exist at the moment of the access (recorded with the event)
+MissOf(e) == {<<e.miss[i].c, e.miss[i].p>> : i \in 1..Len(e.miss)}
 ValueOK(e, want) ==
   /\ e.val = want.val
   /\ want.val # "empty" => (e.src = want.src /\ e.kind = want.kind)      \* "" has no class identity
@@ -80,7 +86,8 @@ Failing(e) ==
         ELSE {"C." \o e.out \o "/" \o (CHOOSE x \in Creation(kase, e.c) : TRUE)}) \cup
        (IF e.out = "ok" /\ e.mro # Mro(kase, e.c).seq THEN {"M.mro"} ELSE {})
   ELSE IF e.a = "render" THEN RenderFailing(e)
-  ELSE IF e.exc THEN {"E." \o e.a}
+  ELSE IF e.exc THEN (IF MayRaise(kase, e.c, MissOf(e)) THEN {} ELSE {"E." \o e.a})
+  ELSE IF MustRaise(kase, e.c, e.a, MissOf(e)) THEN {"Q." \o e.a}
   ELSE IF e.a = "media" THEN
        {"F." \o t : t \in {t \in Types : ~FilesOK(Obs(e, t), kase, e.c, t)}} \cup
        {"O." \o t : t \in {t \in Types : ~OnceOK(Obs(e, t))}} \cup
